@@ -144,6 +144,16 @@ func genAffinityPlan(seed uint64, tier string) *Plan {
 		p.Ops = append(p.Ops, op)
 		p.Variant = "hour-old-connection"
 	}
+	if sameSentBy && g.chance(30) {
+		// one client connects FROM the port that the others announce in their Via (10.1.0.1:5060) and asks for rport:
+		// its response address (received:rport) is, as text, the others' (sent-by); its transaction stays open while
+		// the others' come and go
+		id := g.nextID()
+		op := Op{Kind: "tx", ID: id, Conn: "ksrc", SrcIP: clientIP, DelayUs: 0,
+			S: map[string]string{"method": "INVITE", "prov": "180", "sentby": "10.1.0.1:5070"},
+			I: map[string]int{"final": 200, "d1": 500, "d2": 60000 + g.intn(40000), "rport": 1, "srcPort": 5060}}
+		p.Ops = append(p.Ops, op)
+	}
 	if nconn > 2 && g.chance(15) {
 		// one client hangs up while its transactions are open, and nobody listens where its Via points: its answers
 		// cannot be delivered - everybody else's must not notice
